@@ -11,6 +11,7 @@ import Driver.MG
 import Driver.CN
 import Driver.RC
 import Driver.CC
+import Driver.RX
 /-!
 Line-protocol driver: one operation per input line, one observation per output line:
 `<model observation>\t<spec observation>`.  First token selects the component.
@@ -31,6 +32,7 @@ structure All where
   cn : CN.St := {}
   rc : RC.St := {}
   cc : CC.St := {}
+  rx : RX.St := {}
 
 def stepAll (s : All) (line : String) : All × String :=
   match (line.trimAscii.toString.splitOn " ").filter (· ≠ "") with
@@ -73,6 +75,9 @@ def stepAll (s : All) (line : String) : All × String :=
   | "cc" :: args =>
       let (c, a, b) := CC.step s.cc args
       ({ s with cc := c }, a ++ "\t" ++ b)
+  | "rx" :: args =>
+      let (c, a, b) := RX.step s.rx args
+      ({ s with rx := c }, a ++ "\t" ++ b)
   | [] => (s, "")
   | _ => (s, "bad-component\tbad-component")
 
